@@ -41,3 +41,13 @@ func VerifC06ReadValidMsg(
 ) (resp *dns.Msg, err error) {
 	return u.readValidMsg(req, network, conn, buf)
 }
+
+// VerifC06PackReq calls the unexported packReq of u with the given buffer.
+func VerifC06PackReq(
+	u *UpstreamPlain,
+	network Network,
+	buf []byte,
+	req *dns.Msg,
+) (n int, err error) {
+	return u.packReq(network, buf, req)
+}
